@@ -135,14 +135,41 @@ def check_mesh(ctx, case, V, F, truth, canonical):
         if got[k] != v:
             ctx.violation({**key, "kind": "status-wrong", "status": k, "reported": got[k]}, case, {"truth": v})
             return
-    if truth["open"] or truth["selfintersecting"]:
+    if truth["open"]:
         return  # orientation / field are only promised for closed meshes
+    # (interpenetrating parts are closed meshes: each part must come out with outward faces - judged per
+    #  connected component by signed volume and edge consistency, which do not care about the other part)
+    if truth["selfintersecting"]:
+        ctx.count("orientation_checks_interpenetrating")
     Fr = np.array(m.faces)
     ctx.count("orientation_checks")
     if not M.all_outward(np.array(m.vertices), Fr):
-        bad = [c for c in M.components(Fr) if M.signed_volume(np.array(m.vertices), Fr[c]) <= 0 or not M.consistently_oriented(Fr[c])]
-        ctx.violation({**key, "kind": "not-all-faces-outward-after-reorientation", "thickness<=1e-4": case.get("thin", 1.0) <= 1e-4}, case,
-                      {"components": len(M.components(Fr)), "bad_components": len(bad)})
+        Vr = np.array(m.vertices)
+        comps = sorted(M.components(Fr), key=min)
+        bad = [c for c in comps if M.signed_volume(Vr, Fr[c]) <= 0 or not M.consistently_oriented(Fr[c])]
+        extra = {}
+        if truth["selfintersecting"]:
+            # mechanism key for interpenetrating (convex) parts: a part is processed when its lowest-index face
+            # comes up; its seed facet is ray-tested against all faces NOT YET processed.  The known finding says:
+            # a part comes out inside-out exactly when its seed facet lies inside an odd number of parts that are
+            # still unprocessed at that moment.  Anything else is a different failure.
+            from scipy.spatial import Delaunay
+
+            def inside_hull(pt, comp):
+                vv = np.unique(Fr[comp].ravel())
+                return bool(Delaunay(Vr[vv]).find_simplex(pt[None])[0] >= 0)
+            expl = True
+            for c in bad:
+                if not M.consistently_oriented(Fr[c]):
+                    expl = False
+                    break
+                seed_c = Vr[Fr[min(c)]].mean(axis=0)
+                later = [o for o in comps if min(o) > min(c)]
+                if sum(inside_hull(seed_c, o) for o in later) % 2 == 0:
+                    expl = False
+            extra = {"seed_inside_unprocessed_part": expl}
+        ctx.violation({**key, "kind": "not-all-faces-outward-after-reorientation", "thickness<=1e-4": case.get("thin", 1.0) <= 1e-4,
+                       **extra}, case, {"components": len(comps), "bad_components": len(bad)})
         return
     # the field must not depend on order / winding / numbering
     V0, F0 = canonical
